@@ -177,6 +177,12 @@ def run_case(case) -> Outcome:
                         if got[(name, v)] != cnt:
                             out.bad("symfile:label", sub, f"label {name}={v:#08x} has {cnt} definition(s) outside loops but is listed {got[(name, v)]} time(s) in the symbol file; entries for that name: {[s for s in syms if s[0] == name]}\n{src}")
                             break
+                    else:
+                        # nothing but label definitions is listed: an entry under a name no label has lists some definition twice
+                        known = {n_ for n_, _ in model.labels}
+                        extra = [s_ for s_ in syms if s_[0] not in known]
+                        if extra:
+                            out.bad("symfile:extra-entry", sub, f"the symbol file lists {extra[:4]}, which are not label definitions of the program (labels: {sorted(known)[:12]})\n{src}")
         # ---- command line
         argv = ["-f", fmt, "-m", rom] + (["--copier-header"] if cop else []) + dargs
         runs = [("cli", driver.cli_inproc(argv, src, files=allfiles))]
